@@ -918,6 +918,16 @@ static long run_one(int w, long k1, long k2)
 		sb_reset(&c.res);
 		vf_dump(c.out, &c.res, DUMP_SER);
 	}
+	else if (st == R_OK && c.out)
+	{
+		/* memory is available again: the produced value must also SERIALIZE like the fault-free one
+		 * (retained number text, serializer data: things the typed dump does not look at) */
+		sb_t ser = {0};
+		vf_dump(c.out, &ser, DUMP_SER);
+		sb_puts(&c.res, " serialized=");
+		sb_put(&c.res, ser.p ? ser.p : "", ser.n);
+		sb_free(&ser);
+	}
 	if (st == R_OK)
 	{
 		if (k1 == 0)
@@ -997,6 +1007,14 @@ static long run_one(int w, long k1, long k2)
 		int st2 = W_->op(&c);
 		if (st2 == R_OK && c.out && c.res.n == 0)
 			vf_dump(c.out, &c.res, DUMP_SER);
+		else if (st2 == R_OK && c.out)
+		{
+			sb_t ser = {0};
+			vf_dump(c.out, &ser, DUMP_SER);
+			sb_puts(&c.res, " serialized=");
+			sb_put(&c.res, ser.p ? ser.p : "", ser.n);
+			sb_free(&ser);
+		}
 		if (st2 != R_OK)
 		{
 			char sig[128];
